@@ -512,8 +512,14 @@ def _mult_tilts_contract():
                     return False
                 want = list(f.attrs['tilt'].items) + [tl[j] for j in range(seg, len(tl), size)]
                 have = got[k].attrs['tilt'].items
-                ctx.oblige('plane.Plane.multiply::tilts_of_segment[fitted-tilts]',
-                           len(have) == len(want) and all(a is b for a, b in zip(have, want)),
+                if getattr(ctx, 'replaying', False):
+                    # object identity does not survive the trip through the native runner: compare angles
+                    same = len(have) == len(want) and z3.And(*[z3.And(S.z(S.eq(a.attrs['x'], b.attrs['x'])),
+                                                                      S.z(S.eq(a.attrs['y'], b.attrs['y'])))
+                                                               for a, b in zip(have, want)], z3.BoolVal(True))
+                else:
+                    same = len(have) == len(want) and all(a is b for a, b in zip(have, want))
+                ctx.oblige('plane.Plane.multiply::tilts_of_segment[fitted-tilts]', same,
                            info={'have': len(have), 'want': len(want)})
                 k += 1
         return k == len(got)
